@@ -182,8 +182,16 @@ def explore_scenario(h, desc, tier, profile=False):
                 if err and err[0] == "precondition":
                     pass
                 elif err or Mc.failures:
-                    res["errors"].append(["crossval-mismatch", str(err or Mc.failures[0].to_json())[:800],
-                                          {k: str(v) for k, v in vals.items()}])
+                    # the real float64 code violates an obligation at the witness input: this IS a replayed
+                    # violation (found by the concrete twin rather than by the solver)
+                    if Mc.failures:
+                        g = Mc.failures[0]
+                        lab, key, det = g.label, g.key, str(g.detail)[:1500]
+                    else:
+                        lab, key, det = "exception", M.key_prefix + "exception:" + err[1].split(":")[0], err[1]
+                    res["failures"].append(dict(label=lab, key=key, detail=det, kind="crossval", replay="reproduced",
+                                                values={k: str(v) for k, v in vals.items()},
+                                                reproduced=dict(values={k: str(v) for k, v in vals.items()}, label=lab, key=key, detail=det)))
                 else:
                     res["validated"] = 1
         except core.HarnessError as e:
@@ -196,6 +204,8 @@ def explore_scenario(h, desc, tier, profile=False):
 
 def worker_main(pid, tier, seed, inq, outq, wid):
     sys.path.insert(0, VERIF)
+    import warnings
+    warnings.filterwarnings("ignore")
     try:
         h = load_harness(pid)
         scen = h.scenarios(tier, seed)
